@@ -64,7 +64,7 @@ where
                 Ok(()) if ch.trace.len() < plen && attempt < 8 => { attempt += 1; ch = Chooser::new(prefix.clone()); }
                 Ok(()) => break,
                 // environment noise (a spurious kernel EAGAIN changes the library's syscall sequence): re-run the prefix
-                Err(Mach(m)) if m.starts_with("REPLAY DIVERGENCE") && attempt < 8 => { attempt += 1; ch = Chooser::new(prefix.clone()); }
+                Err(Mach(m)) if m.starts_with("REPLAY DIVERGENCE") && attempt < 20 => { attempt += 1; ch = Chooser::new(prefix.clone()); }
                 // the kernel disturbed this execution by itself (spurious EAGAIN from openat2): not a sample of the subject, run it again
                 Err(Mach(m)) if m.starts_with("NOISE") && attempt < 60 => { attempt += 1; ch = Chooser::new(prefix.clone()); }
                 Err(e) => return Err(e),
